@@ -1266,3 +1266,633 @@ Example sort_order_ex6 : sort_order 8 [7;3;0;5;6;1] = [3;7;0;2;4;5;6;1].
 Proof. vm_compute. reflexivity. Qed.
 Example valid_order_ex : valid_order 10 [6;3;0;4;1;9].
 Proof. apply order_ok_b_valid. vm_compute. reflexivity. Qed.
+(** * [bubble_sort] *)
+
+Lemma swap_adj_length {A} i (l : list A) : length (swap_adj i l) = length l.
+Proof.
+  revert l; induction i as [|i IH]; intros [|a r]; simpl; auto.
+  destruct r; reflexivity.
+Qed.
+
+Lemma nth_swap_adj {A} i (l : list A) k d :
+  S i < length l ->
+  nth k (swap_adj i l) d =
+  if k =? i then nth (S i) l d else if k =? S i then nth i l d else nth k l d.
+Proof.
+  revert l k; induction i as [|i IH]; intros l k H.
+  - destruct l as [|a [|b r]]; simpl in H; try lia. destruct k as [|[|k]]; reflexivity.
+  - destruct l as [|a r]; simpl in H; [lia|]. destruct k as [|k]; [reflexivity|].
+    cbn [swap_adj nth]. rewrite IH by lia. reflexivity.
+Qed.
+
+Lemma swap_adj_perm {A} i (l : list A) : Permutation (swap_adj i l) l.
+Proof.
+  revert l; induction i as [|i IH]; intros [|a r]; simpl; auto.
+  destruct r; [reflexivity|apply perm_swap].
+Qed.
+
+Lemma swap_adj_map {A B} (f : A -> B) i l : swap_adj i (map f l) = map f (swap_adj i l).
+Proof.
+  revert l; induction i as [|i IH]; intros [|a r]; simpl; auto.
+  - destruct r; reflexivity.
+  - f_equal. apply IH.
+Qed.
+
+Lemma replay_map {A B} (f : A -> B) sw l : replay sw (map f l) = map f (replay sw l).
+Proof.
+  revert l; induction sw as [|i r IH]; intros l; [reflexivity|].
+  unfold replay in *. simpl. rewrite swap_adj_map. apply IH.
+Qed.
+
+Lemma replay_app {A} a b (l : list A) : replay (a ++ b) l = replay b (replay a l).
+Proof. unfold replay. apply fold_left_app. Qed.
+
+Lemma replay_length {A} sw (l : list A) : length (replay sw l) = length l.
+Proof.
+  revert l; induction sw as [|i r IH]; intros l; [reflexivity|].
+  unfold replay in *. simpl. rewrite IH. apply swap_adj_length.
+Qed.
+
+Lemma replay_perm {A} sw (l : list A) : Permutation (replay sw l) l.
+Proof.
+  revert l; induction sw as [|i r IH]; intros l; [reflexivity|].
+  unfold replay in *. simpl. rewrite IH. apply swap_adj_perm.
+Qed.
+
+Lemma count_lt_swap x i l : count_lt x (swap_adj i l) = count_lt x l.
+Proof.
+  revert l; induction i as [|i IH]; intros [|a r]; simpl; auto.
+  destruct r; simpl; lia.
+Qed.
+
+(** exchanging an out-of-order adjacent pair removes exactly one inversion *)
+Lemma inv_swap_adj i l :
+  S i < length l -> nth (S i) l 0 < nth i l 0 -> inv l = S (inv (swap_adj i l)).
+Proof.
+  revert l; induction i as [|i IH]; intros l Hl Hlt.
+  - destruct l as [|a [|b r]]; simpl in Hl; try lia. simpl in Hlt. simpl.
+    replace (b <? a) with true by (symmetry; apply Nat.ltb_lt; assumption).
+    replace (a <? b) with false by (symmetry; apply Nat.ltb_ge; lia). lia.
+  - destruct l as [|a r]; simpl in Hl; [lia|]. cbn [swap_adj inv].
+    rewrite count_lt_swap. cbn [nth] in Hlt. rewrite (IH r) by (assumption || lia). lia.
+Qed.
+
+(** every swap exchanges an adjacent pair that is strictly out of order at
+    that moment (hence equal keys are never exchanged: stability) *)
+Fixpoint valid_swaps (l : list nat) (sw : list nat) : Prop :=
+  match sw with
+  | [] => True
+  | i :: r => S i < length l /\ nth (S i) l 0 < nth i l 0 /\ valid_swaps (swap_adj i l) r
+  end.
+
+Lemma valid_swaps_app l a b :
+  valid_swaps l (a ++ b) <-> valid_swaps l a /\ valid_swaps (replay a l) b.
+Proof.
+  revert l; induction a as [|i r IH]; intros l; simpl; [tauto|].
+  rewrite IH. unfold replay. simpl. tauto.
+Qed.
+
+Lemma valid_swaps_inv l sw : valid_swaps l sw -> inv l = length sw + inv (replay sw l).
+Proof.
+  revert l; induction sw as [|i r IH]; intros l H; [reflexivity|].
+  destruct H as (H1 & H2 & H3). rewrite (inv_swap_adj i l H1 H2), (IH _ H3).
+  unfold replay. simpl. lia.
+Qed.
+
+Definition sorted (l : list nat) : Prop :=
+  forall a b, a < b < length l -> nth a l 0 <= nth b l 0.
+
+Lemma sorted_inv l : sorted l -> inv l = 0.
+Proof.
+  intros H. rewrite inv_invf. unfold invf. apply sumn_zero. intros i Hi.
+  apply sumn_zero. intros j Hj.
+  destruct (Nat.ltb_spec i j) as [L|]; [|reflexivity].
+  pose proof (H i j ltac:(lia)).
+  replace (nth j l 0 <? nth i l 0) with false by (symmetry; apply Nat.ltb_ge; assumption).
+  reflexivity.
+Qed.
+
+(** positions in [lo, hi) hold elements that dominate everything before them *)
+Definition dom (s : list nat) (lo hi : nat) : Prop :=
+  forall j, lo <= j < hi -> forall k, k < j -> nth k s 0 <= nth j s 0.
+
+Lemma bubble_pass_spec s0 cnt : forall i s nn sw s' nn' sw' n,
+  bubble_pass cnt i s nn sw = (s', nn', sw') ->
+  1 <= i -> i + cnt = n -> n <= length s -> nn < i ->
+  valid_swaps s0 (rev sw) -> replay (rev sw) s0 = s ->
+  dom s nn i -> dom s n (length s) ->
+  valid_swaps s0 (rev sw') /\ replay (rev sw') s0 = s' /\ length s' = length s
+  /\ nn' < n /\ dom s' nn' (length s').
+Proof.
+  induction cnt as [|cnt IH]; intros i s nn sw s' nn' sw' n Hp Hi Hn Hlen Hnn Hval Hrep Hd1 Hd2.
+  - simpl in Hp. injection Hp as <- <- <-. assert (i = n) by lia. subst i.
+    repeat split; auto. intros j Hj k Hk.
+    destruct (Nat.lt_ge_cases j n); [apply Hd1|apply Hd2]; lia.
+  - simpl in Hp. destruct (Nat.ltb_spec (nth i s 0) (nth (i - 1) s 0)) as [Hlt|Hge].
+    + assert (Hsi : S (i - 1) = i) by lia.
+      assert (Hlen' : S (i - 1) < length s) by lia.
+      apply (IH _ _ _ _ _ _ _ n) in Hp; try lia.
+      * rewrite swap_adj_length in Hp. exact Hp.
+      * rewrite swap_adj_length. lia.
+      * simpl. apply valid_swaps_app. split; [assumption|]. rewrite Hrep. simpl.
+        rewrite Hsi. repeat split; [lia|assumption].
+      * simpl. rewrite replay_app, Hrep. reflexivity.
+      * intros j Hj k Hk. assert (j = i) by lia. subst j.
+        rewrite !nth_swap_adj by assumption. rewrite Hsi.
+        replace (i =? i - 1) with false by (symmetry; apply Nat.eqb_neq; lia).
+        rewrite Nat.eqb_refl.
+        destruct (Nat.eqb_spec k (i - 1)); [lia|].
+        replace (k =? i) with false by (symmetry; apply Nat.eqb_neq; lia).
+        apply Hd1; lia.
+      * rewrite swap_adj_length. intros j Hj k Hk.
+        rewrite !nth_swap_adj by assumption. rewrite Hsi.
+        replace (j =? i - 1) with false by (symmetry; apply Nat.eqb_neq; lia).
+        replace (j =? i) with false by (symmetry; apply Nat.eqb_neq; lia).
+        destruct (k =? i - 1); [apply Hd2; lia|]. destruct (k =? i); apply Hd2; lia.
+    + apply (IH _ _ _ _ _ _ _ n) in Hp; try lia; auto.
+      intros j Hj k Hk. destruct (Nat.eq_dec j i) as [->|]; [|apply Hd1; lia].
+      destruct (Nat.eq_dec k (i - 1)) as [->|]; [assumption|].
+      pose proof (Hd1 (i - 1) ltac:(lia) k ltac:(lia)). lia.
+Qed.
+
+Lemma bubble_loop_spec s0 fuel : forall n s sw s' sw',
+  bubble_loop fuel n s sw = (s', sw') ->
+  n <= fuel -> n <= length s ->
+  valid_swaps s0 (rev sw) -> replay (rev sw) s0 = s -> dom s n (length s) ->
+  valid_swaps s0 (rev sw') /\ replay (rev sw') s0 = s' /\ dom s' 1 (length s').
+Proof.
+  induction fuel as [|fuel IH]; intros n s sw s' sw' Hp Hf Hlen Hval Hrep Hd.
+  - simpl in Hp. injection Hp as <- <-. repeat split; auto.
+    intros j Hj. apply Hd. lia.
+  - simpl in Hp. destruct (Nat.ltb_spec 1 n) as [Hn|Hn].
+    + destruct (bubble_pass (n - 1) 1 s 0 sw) as [[s1 nn1] sw1] eqn:E.
+      apply (bubble_pass_spec s0 _ _ _ _ _ _ _ _ n) in E; try lia; auto.
+      * destruct E as (V & R & L & Hnn & D). apply IH in Hp; auto; lia.
+      * intros j Hj k Hk. lia.
+    + injection Hp as <- <-. repeat split; auto. intros j Hj. apply Hd. lia.
+Qed.
+
+Theorem bubble_sort_correct s :
+  let '(s', sw) := bubble_sort s in
+  sorted s' /\ Permutation s' s
+  /\ valid_swaps s sw /\ replay sw s = s'
+  /\ length sw = inv s.
+Proof.
+  unfold bubble_sort.
+  destruct (bubble_loop (length s) (length s) s []) as [s' sw] eqn:E.
+  apply (bubble_loop_spec s) in E; simpl; auto.
+  2:{ intros j Hj. lia. }
+  destruct E as (V & R & D).
+  assert (Hs : sorted s').
+  { intros a b Hab. apply D; lia. }
+  repeat split; auto.
+  - rewrite <- R. apply replay_perm.
+  - pose proof (valid_swaps_inv s (rev sw) V) as H. rewrite R, (sorted_inv s' Hs) in H. lia.
+Qed.
+
+(** every reported index is in range *)
+Lemma valid_swaps_range l sw : valid_swaps l sw -> Forall (fun i => S i < length l) sw.
+Proof.
+  revert l; induction sw as [|i r IH]; intros l H; constructor.
+  - apply H.
+  - destruct H as (_ & _ & H). apply IH in H. rewrite swap_adj_length in H. exact H.
+Qed.
+
+(** replaying the reported swaps on any list of payloads whose keys are [s]
+    sorts the payloads by key (this is what the [swap] callback does to the
+    levels) *)
+Theorem bubble_sort_replay {A} (key : A -> nat) (xs : list A) :
+  let '(s', sw) := bubble_sort (map key xs) in
+  map key (replay sw xs) = s' /\ Permutation (replay sw xs) xs.
+Proof.
+  pose proof (bubble_sort_correct (map key xs)) as H.
+  destruct (bubble_sort (map key xs)) as [s' sw]. destruct H as (_ & _ & _ & R & _).
+  split; [|apply replay_perm]. rewrite <- replay_map. exact R.
+Qed.
+
+Example bubble_sort_ex : bubble_sort [4;1;3;0;2] = ([0;1;2;3;4], [0;1;2;3;1;2;0]).
+Proof. vm_compute. reflexivity. Qed.
+Example bubble_sort_stable_ex : bubble_sort [0;0;1;1] = ([0;0;1;1], []).
+Proof. vm_compute. reflexivity. Qed.
+(** * [concurrent_bubble_sort]: invariants of the task state machine *)
+
+(** the two indices a pending or running swap at [i] owns *)
+Definition pairs (T : list nat) : list nat := flat_map (fun i => [i; S i]) T.
+
+(** [T] = all pending ([tasks]) and running ([inflight]) swaps *)
+Record inv_core (s : list nat) (b : list bool) (T : list nat) : Prop := {
+  ic_len : length b = length s;
+  (* no two pending/running swaps share an index *)
+  ic_disj : NoDup (pairs T);
+  (* exactly their indices are blocked *)
+  ic_blocked : forall k, nth k b false = true <-> In k (pairs T);
+  (* each of them is an adjacent pair that is strictly out of order *)
+  ic_ooo : forall t, In t T -> S t < length s /\ nth (S t) s 0 < nth t s 0;
+  (* every out-of-order adjacent pair touches a blocked index *)
+  ic_cover : forall k, S k < length s -> nth (S k) s 0 < nth k s 0 ->
+             nth k b false = true \/ nth (S k) b false = true
+}.
+
+Definition cb_inv (st : cb_state) : Prop :=
+  inv_core (cb_seq st) (cb_blocked st) (cb_tasks st ++ cb_inflight st).
+
+Lemma pairs_perm T T' : Permutation T T' -> Permutation (pairs T) (pairs T').
+Proof.
+  intros H. induction H; simpl; auto.
+  - change (Permutation ([y; S y] ++ [x; S x] ++ pairs l) ([x; S x] ++ [y; S y] ++ pairs l)).
+    rewrite !app_assoc. apply Permutation_app_tail. apply Permutation_app_comm.
+  - eapply perm_trans; eassumption.
+Qed.
+Lemma inv_core_perm s b T T' : Permutation T T' -> inv_core s b T -> inv_core s b T'.
+Proof.
+  intros HP [H1 H2 H3 H4 H5]. pose proof (pairs_perm _ _ HP) as HPP. constructor; auto.
+  - eapply Permutation_NoDup; eassumption.
+  - intros k. rewrite H3. split; apply Permutation_in; [|apply Permutation_sym]; assumption.
+  - intros t Ht. apply H4. eapply Permutation_in; [apply Permutation_sym|]; eassumption.
+Qed.
+
+(** the pieces of [cb_finish] *)
+Definition fin_sb (s : list nat) (b0 : list bool) (i : nat) : bool :=
+  (0 <? i) && (nth i s 0 <? nth (i - 1) s 0) && negb (nth (i - 1) b0 false).
+Definition fin_b1 (s : list nat) (b0 : list bool) (i : nat) : list bool :=
+  if fin_sb s b0 i then lset b0 (i - 1) true else lset b0 i false.
+Definition fin_c2 (s : list nat) (b0 : list bool) (i : nat) : bool :=
+  (i + 2 <? length s) && (nth (i + 2) s 0 <? nth (i + 1) s 0)
+  && negb (nth (i + 2) (fin_b1 s b0 i) false).
+Definition fin_b2 (s : list nat) (b0 : list bool) (i : nat) : list bool :=
+  if fin_c2 s b0 i then lset (fin_b1 s b0 i) (i + 2) true
+  else lset (fin_b1 s b0 i) (i + 1) false.
+(** the swaps the finishing worker schedules *)
+Definition fin_new (s : list nat) (b0 : list bool) (i : nat) : list nat :=
+  (if fin_sb s b0 i then [i - 1] else []) ++ (if fin_c2 s b0 i then [i + 1] else []).
+
+Lemma remove1_perm i l : In i l -> Permutation l (i :: remove1 i l).
+Proof.
+  induction l as [|y r IH]; simpl; [tauto|]. intros H.
+  destruct (Nat.eqb_spec i y) as [->|Hne]; [reflexivity|].
+  destruct H as [H|H]; [congruence|].
+  eapply perm_trans; [apply perm_skip, IH, H|apply perm_swap].
+Qed.
+
+Lemma cb_finish_shape st i :
+  let s := swap_adj i (cb_seq st) in
+  let st' := cb_finish st i in
+  cb_seq st' = s /\ cb_blocked st' = fin_b2 s (cb_blocked st) i
+  /\ Permutation (cb_tasks st' ++ cb_inflight st')
+                 (fin_new s (cb_blocked st) i ++ cb_tasks st ++ remove1 i (cb_inflight st)).
+Proof.
+  intros s st'. subst st'. unfold cb_finish. fold s.
+  fold (fin_sb s (cb_blocked st) i). fold (fin_b1 s (cb_blocked st) i).
+  fold (fin_c2 s (cb_blocked st) i). unfold fin_new, fin_b2.
+  destruct (fin_c2 s (cb_blocked st) i), (fin_sb s (cb_blocked st) i); cbn [cb_seq cb_blocked cb_tasks cb_inflight app].
+  - repeat split; auto.
+    change (Permutation ((i + 1 :: cb_tasks st) ++ (i - 1) :: remove1 i (cb_inflight st))
+                        (i - 1 :: (i + 1 :: cb_tasks st) ++ remove1 i (cb_inflight st))).
+    apply Permutation_sym, Permutation_middle.
+  - repeat split; auto. apply Permutation_sym, Permutation_middle.
+  - repeat split; auto. apply Permutation_sym, Permutation_middle.
+  - destruct (cb_tasks st) as [|t r]; cbn [cb_seq cb_blocked cb_tasks cb_inflight app].
+    + repeat split; auto.
+    + repeat split; auto. apply Permutation_sym, Permutation_middle.
+Qed.
+Lemma fin_b2_length s b0 i : length (fin_b2 s b0 i) = length b0.
+Proof.
+  unfold fin_b2, fin_b1. destruct (fin_c2 s b0 i), (fin_sb s b0 i); rewrite !lset_length; reflexivity.
+Qed.
+
+Lemma nth_lset_bool (l : list bool) i j x :
+  i < length l -> nth j (lset l i x) false = if j =? i then x else nth j l false.
+Proof.
+  intros H. rewrite nth_lset. apply Nat.ltb_lt in H. rewrite H, andb_true_r. reflexivity.
+Qed.
+
+(** which indices are blocked after the critical section *)
+Lemma fin_b2_nth s b0 i x :
+  length b0 = length s -> S i < length s ->
+  nth i b0 false = true -> nth (S i) b0 false = true ->
+  nth x (fin_b2 s b0 i) false =
+  (fin_sb s b0 i && ((x =? i - 1) || (x =? i)))
+  || (fin_c2 s b0 i && ((x =? i + 1) || (x =? i + 2)))
+  || (nth x b0 false && negb (x =? i) && negb (x =? i + 1)).
+Proof.
+  intros Hlen Hi Hbi Hbsi.
+  assert (Hsb : fin_sb s b0 i = true -> 0 < i).
+  { unfold fin_sb. rewrite !andb_true_iff, Nat.ltb_lt. tauto. }
+  assert (Hc2 : fin_c2 s b0 i = true -> i + 2 < length s).
+  { unfold fin_c2. rewrite !andb_true_iff, Nat.ltb_lt. tauto. }
+  replace (S i) with (i + 1) in Hbsi by lia.
+  unfold fin_b2, fin_b1.
+  destruct (fin_sb s b0 i) eqn:Esb, (fin_c2 s b0 i) eqn:Ec2;
+    try (specialize (Hsb eq_refl)); try (specialize (Hc2 eq_refl));
+    rewrite !nth_lset_bool by (rewrite ?lset_length; lia);
+    cbn [andb orb];
+    repeat match goal with
+           | |- context [Nat.eqb ?a ?b] => destruct (Nat.eqb_spec a b); try lia
+           end;
+    subst; cbn [andb orb negb]; rewrite ?Hbi, ?Hbsi, ?andb_true_r, ?andb_false_r, ?orb_false_r;
+    try reflexivity.
+Qed.
+Lemma finish_core s0 b0 i T :
+  inv_core s0 b0 (i :: T) ->
+  let s := swap_adj i s0 in
+  inv_core s (fin_b2 s b0 i) (fin_new s b0 i ++ T).
+Proof.
+  intros [Hlen Hdisj Hblk Hooo Hcov] s.
+  destruct (Hooo i (in_eq _ _)) as [Hi Hlt].
+  assert (Hslen : length s = length s0) by apply swap_adj_length.
+  assert (Hs : forall k, nth k s 0 =
+             if k =? i then nth (S i) s0 0 else if k =? S i then nth i s0 0 else nth k s0 0).
+  { intros k. apply nth_swap_adj. assumption. }
+  cbn [pairs flat_map app] in Hdisj, Hblk. fold (pairs T) in Hdisj, Hblk.
+  inversion Hdisj as [|? ? Hni Hdisj1]; subst. inversion Hdisj1 as [|? ? Hnsi HdisjT]; subst.
+  assert (HniT : ~ In i (pairs T)) by (intros H; apply Hni; right; assumption).
+  clear Hni Hdisj1 Hdisj.
+  assert (Hbi : nth i b0 false = true) by (apply Hblk; left; reflexivity).
+  assert (Hbsi : nth (S i) b0 false = true) by (apply Hblk; right; left; reflexivity).
+  assert (Hlen' : length b0 = length s) by lia.
+  assert (Hi' : S i < length s) by lia.
+  pose proof (fun x => fin_b2_nth s b0 i x Hlen' Hi' Hbi Hbsi) as Hb2.
+  (* what the two tests tell *)
+  assert (Hsb : fin_sb s b0 i = true ->
+                0 < i /\ nth i s 0 < nth (i - 1) s 0 /\ ~ In (i - 1) (pairs T)).
+  { unfold fin_sb. rewrite !andb_true_iff, !Nat.ltb_lt, negb_true_iff. intros [[H1 H2] H3].
+    repeat split; auto. intros Hin.
+    assert (nth (i - 1) b0 false = true) by (apply Hblk; right; right; assumption). congruence. }
+  assert (Hsbf : fin_sb s b0 i = false ->
+                 0 < i -> nth i s 0 < nth (i - 1) s 0 -> nth (i - 1) b0 false = true).
+  { unfold fin_sb. intros H H1 H2. apply Nat.ltb_lt in H1, H2. rewrite H1, H2 in H. simpl in H.
+    apply negb_false_iff in H. exact H. }
+  assert (Hb1 : nth (i + 2) (fin_b1 s b0 i) false = nth (i + 2) b0 false).
+  { unfold fin_b1. destruct (fin_sb s b0 i); apply nth_lset_other; lia. }
+  assert (Hc2 : fin_c2 s b0 i = true ->
+                i + 2 < length s /\ nth (i + 2) s 0 < nth (i + 1) s 0 /\ ~ In (i + 2) (pairs T)).
+  { unfold fin_c2. rewrite Hb1, !andb_true_iff, !Nat.ltb_lt, negb_true_iff. intros [[H1 H2] H3].
+    repeat split; auto. intros Hin.
+    assert (nth (i + 2) b0 false = true) by (apply Hblk; right; right; assumption). congruence. }
+  assert (Hc2f : fin_c2 s b0 i = false ->
+                 i + 2 < length s -> nth (i + 2) s 0 < nth (i + 1) s 0 -> nth (i + 2) b0 false = true).
+  { unfold fin_c2. rewrite Hb1. intros H H1 H2. apply Nat.ltb_lt in H1, H2.
+    rewrite H1, H2 in H. simpl in H. apply negb_false_iff in H. exact H. }
+  (* the new pending swaps and their indices *)
+  assert (Hpairs : forall k, In k (pairs (fin_new s b0 i ++ T)) <->
+            (fin_sb s b0 i = true /\ (k = i - 1 \/ k = i))
+            \/ (fin_c2 s b0 i = true /\ (k = i + 1 \/ k = i + 2))
+            \/ In k (pairs T)).
+  { intros k. unfold fin_new, pairs. rewrite !flat_map_app, !in_app_iff. fold (pairs T).
+    destruct (fin_sb s b0 i) eqn:E1, (fin_c2 s b0 i) eqn:E2; simpl;
+      try (specialize (Hsb eq_refl)); intuition (try discriminate; try lia). }
+  constructor.
+  - rewrite fin_b2_length. lia.
+  - unfold fin_new, pairs. rewrite !flat_map_app. fold (pairs T).
+    destruct (fin_sb s b0 i) eqn:E1, (fin_c2 s b0 i) eqn:E2; simpl;
+      try (destruct (Hsb eq_refl) as (S1 & S2 & S3)); try (destruct (Hc2 eq_refl) as (C1 & C2 & C3));
+      try assumption.
+    + replace (S (i - 1)) with i by lia. replace (S (i + 1)) with (i + 2) by lia.
+      replace (i + 1) with (S i) by lia.
+      repeat constructor; simpl; try assumption; intuition lia.
+    + replace (S (i - 1)) with i by lia.
+      repeat constructor; simpl; try assumption; intuition lia.
+    + replace (S (i + 1)) with (i + 2) by lia. replace (i + 1) with (S i) by lia.
+      repeat constructor; simpl; try assumption; intuition lia.
+  - intros k. rewrite Hpairs, Hb2.
+    rewrite !orb_true_iff, !andb_true_iff, !orb_true_iff, !negb_true_iff, !Nat.eqb_eq, !Nat.eqb_neq.
+    rewrite Hblk. simpl. fold (pairs T). split.
+    + intros [[H|H]|[[H1 H2] H3]]; [tauto|tauto|]. right; right.
+      destruct H1 as [H1|[H1|H1]]; [lia|lia|assumption].
+    + intros [H|[H|H]]; [tauto|tauto|]. right. repeat split; auto.
+      * intros ->. contradiction.
+      * intros ->. apply Hnsi. replace (S i) with (i + 1) by lia. assumption.
+  - intros t Ht.
+    assert (Hcases : (fin_sb s b0 i = true /\ t = i - 1) \/ (fin_c2 s b0 i = true /\ t = i + 1)
+                     \/ In t T).
+    { unfold fin_new in Ht. rewrite !in_app_iff in Ht.
+      destruct (fin_sb s b0 i), (fin_c2 s b0 i); simpl in Ht; intuition. }
+    destruct Hcases as [[E ->]|[[E ->]|HtT]].
+    + destruct (Hsb E) as (S1 & S2 & _). replace (S (i - 1)) with i by lia. split; [lia|assumption].
+    + destruct (Hc2 E) as (C1 & C2 & _). replace (S (i + 1)) with (i + 2) by lia.
+      split; [lia|assumption].
+    + destruct (Hooo t (in_cons _ _ _ HtT)) as [L1 L2].
+      assert (Hin1 : In t (pairs T)).
+      { unfold pairs. apply in_flat_map. exists t. simpl. auto. }
+      assert (Hin2 : In (S t) (pairs T)).
+      { unfold pairs. apply in_flat_map. exists t. simpl. auto. }
+      assert (t <> i) by (intros ->; contradiction).
+      assert (t <> S i) by (intros ->; contradiction).
+      assert (S t <> i) by (intros E; rewrite E in Hin2; contradiction).
+      assert (S t <> S i) by (intros E; rewrite E in Hin2; contradiction).
+      split; [lia|]. rewrite !Hs.
+      repeat match goal with
+             | |- context [Nat.eqb ?a ?b] => destruct (Nat.eqb_spec a b); try lia
+             end.
+  - intros k Hk Hooo_k. rewrite !Hb2.
+    destruct (Nat.eq_dec k i) as [->|Hki].
+    { exfalso. rewrite !Hs in Hooo_k. rewrite Nat.eqb_refl in Hooo_k.
+      replace (S i =? i) with false in Hooo_k by (symmetry; apply Nat.eqb_neq; lia).
+      rewrite Nat.eqb_refl in Hooo_k. lia. }
+    destruct (Nat.eq_dec (S k) i) as [Hski|Hski].
+    { (* the pair above the swapped one *)
+      assert (k = i - 1) by lia. subst k. replace (S (i - 1)) with i in * by lia.
+      left. destruct (fin_sb s b0 i) eqn:E.
+      - rewrite Nat.eqb_refl. reflexivity.
+      - rewrite (Hsbf eq_refl ltac:(lia) Hooo_k).
+        replace (i - 1 =? i) with false by (symmetry; apply Nat.eqb_neq; lia).
+        replace (i - 1 =? i + 1) with false by (symmetry; apply Nat.eqb_neq; lia).
+        simpl. rewrite orb_true_r. reflexivity. }
+    destruct (Nat.eq_dec k (S i)) as [->|Hksi].
+    { (* the pair below the swapped one *)
+      right. replace (S (S i)) with (i + 2) in * by lia. replace (S i) with (i + 1) in Hooo_k by lia.
+      destruct (fin_c2 s b0 i) eqn:E.
+      - rewrite (Nat.eqb_refl (i + 2)). rewrite !orb_true_r. reflexivity.
+      - rewrite (Hc2f eq_refl ltac:(lia) Hooo_k).
+        replace (i + 2 =? i) with false by (symmetry; apply Nat.eqb_neq; lia).
+        replace (i + 2 =? i + 1) with false by (symmetry; apply Nat.eqb_neq; lia).
+        simpl. rewrite orb_true_r. reflexivity. }
+    (* a pair not touching the swapped positions *)
+    assert (Hold : nth (S k) s0 0 < nth k s0 0).
+    { rewrite !Hs in Hooo_k.
+      replace (k =? i) with false in Hooo_k by (symmetry; apply Nat.eqb_neq; lia).
+      replace (k =? S i) with false in Hooo_k by (symmetry; apply Nat.eqb_neq; lia).
+      replace (S k =? i) with false in Hooo_k by (symmetry; apply Nat.eqb_neq; lia).
+      replace (S k =? S i) with false in Hooo_k by (symmetry; apply Nat.eqb_neq; lia).
+      exact Hooo_k. }
+    destruct (Hcov k ltac:(lia) Hold) as [H|H]; [left|right]; rewrite H.
+    + replace (k =? i) with false by (symmetry; apply Nat.eqb_neq; lia).
+      replace (k =? i + 1) with false by (symmetry; apply Nat.eqb_neq; lia).
+      simpl. rewrite orb_true_r. reflexivity.
+    + replace (S k =? i) with false by (symmetry; apply Nat.eqb_neq; lia).
+      replace (S k =? i + 1) with false by (symmetry; apply Nat.eqb_neq; lia).
+      simpl. rewrite orb_true_r. reflexivity.
+Qed.
+(** ** the initial scan *)
+
+Lemma cb_scan_inv s fuel : forall i b tasks b' tasks',
+  cb_scan fuel i s b tasks = (b', tasks') ->
+  length s <= fuel + S i ->
+  length b = length s ->
+  NoDup (pairs tasks) ->
+  (forall k, nth k b false = true <-> In k (pairs tasks)) ->
+  (forall k, In k (pairs tasks) -> k < i) ->
+  (forall t, In t tasks -> S t < length s /\ nth (S t) s 0 < nth t s 0) ->
+  (forall k, k < i -> S k < length s -> nth (S k) s 0 < nth k s 0 ->
+             nth k b false = true \/ nth (S k) b false = true) ->
+  inv_core s b' tasks'.
+Proof.
+  induction fuel as [|fuel IH]; intros i b tasks b' tasks' Hscan Hf Hlen Hnd Hblk Hlt Hooo Hcov.
+  - simpl in Hscan. injection Hscan as <- <-. constructor; auto.
+    intros k Hk Hok. apply Hcov; auto; lia.
+  - simpl in Hscan. destruct (Nat.ltb_spec (S i) (length s)) as [Hi|Hi].
+    + destruct (Nat.ltb_spec (nth (S i) s 0) (nth i s 0)) as [Ho|Ho].
+      * apply IH in Hscan; auto; try lia.
+        -- rewrite !lset_length. assumption.
+        -- simpl. fold (pairs tasks). constructor; [|constructor; [|assumption]].
+           ++ simpl. intros [H|H]; [lia|]. apply Hlt in H. lia.
+           ++ intros H. apply Hlt in H. lia.
+        -- intros k. rewrite !nth_lset_bool by (rewrite ?lset_length; lia).
+           simpl. fold (pairs tasks). rewrite <- Hblk.
+           destruct (Nat.eqb_spec k (S i)), (Nat.eqb_spec k i); subst; intuition (try lia).
+        -- simpl. fold (pairs tasks). intros k [<-|[<-|H]]; [lia|lia|]. apply Hlt in H. lia.
+        -- intros t [<-|H]; auto.
+        -- intros k Hk Hk' Hok. rewrite !nth_lset_bool by (rewrite ?lset_length; lia).
+           destruct (Nat.eqb_spec k (S i)); [auto|]. destruct (Nat.eqb_spec k i); [auto|].
+           destruct (Nat.eqb_spec (S k) (S i)); [lia|]. destruct (Nat.eqb_spec (S k) i); [auto|].
+           apply Hcov; auto; lia.
+      * apply IH in Hscan; auto; try lia.
+        -- intros k Hk. apply Hlt in Hk. lia.
+        -- intros k Hk Hk' Hok. destruct (Nat.eq_dec k i) as [->|]; [lia|]. apply Hcov; auto; lia.
+    + injection Hscan as <- <-. constructor; auto. intros k Hk Hok. apply Hcov; auto; lia.
+Qed.
+
+Theorem cb_init_inv s : cb_inv (cb_init s) /\ cb_seq (cb_init s) = s /\ cb_inflight (cb_init s) = [].
+Proof.
+  unfold cb_init. destruct (cb_scan (length s) 0 s (repeat false (length s)) []) as [b t] eqn:E.
+  unfold cb_inv. cbn [cb_seq cb_blocked cb_tasks cb_inflight]. rewrite app_nil_r.
+  split; [|split; reflexivity]. apply (cb_scan_inv s) in E; auto; try lia.
+  all: try (simpl; tauto).
+  - apply repeat_length.
+  - constructor.
+  - intros k. simpl. rewrite nth_repeat. split; [discriminate|tauto].
+Qed.
+
+(** ** the worker actions preserve the invariant *)
+
+Theorem cb_take_inv st st' : cb_inv st -> cb_take st = Some st' -> cb_inv st'.
+Proof.
+  unfold cb_inv, cb_take. intros H E. destruct (cb_tasks st) as [|i r] eqn:Et; [discriminate|].
+  injection E as <-. cbn [cb_seq cb_blocked cb_tasks cb_inflight].
+  eapply inv_core_perm; [|exact H]. simpl. apply Permutation_middle.
+Qed.
+
+Theorem cb_finish_inv st i : cb_inv st -> In i (cb_inflight st) -> cb_inv (cb_finish st i).
+Proof.
+  unfold cb_inv. intros H Hin.
+  destruct (cb_finish_shape st i) as (E1 & E2 & E3). rewrite E1, E2.
+  eapply inv_core_perm; [apply Permutation_sym, E3|].
+  apply finish_core. eapply inv_core_perm; [|exact H].
+  eapply perm_trans; [apply Permutation_app_head, (remove1_perm i), Hin|].
+  apply Permutation_sym, Permutation_middle.
+Qed.
+
+(** states reachable from the initial scan by any interleaving of worker actions *)
+Inductive cb_reach (s0 : list nat) : cb_state -> Prop :=
+| cbr_init : cb_reach s0 (cb_init s0)
+| cbr_take st st' : cb_reach s0 st -> cb_take st = Some st' -> cb_reach s0 st'
+| cbr_finish st i : cb_reach s0 st -> In i (cb_inflight st) -> cb_reach s0 (cb_finish st i).
+
+Lemma cb_reach_inv s0 st : cb_reach s0 st -> cb_inv st /\ Permutation (cb_seq st) s0.
+Proof.
+  induction 1 as [|st st' _ [IH1 IH2] E|st i _ [IH1 IH2] Hin].
+  - destruct (cb_init_inv s0) as (H1 & H2 & _). rewrite H2. split; [assumption|reflexivity].
+  - split; [eapply cb_take_inv; eassumption|].
+    unfold cb_take in E. destruct (cb_tasks st); [discriminate|]. injection E as <-. assumption.
+  - split; [apply cb_finish_inv; assumption|].
+    destruct (cb_finish_shape st i) as (E1 & _). rewrite E1.
+    eapply perm_trans; [apply swap_adj_perm|assumption].
+Qed.
+
+Lemma NoDup_app_r {A} (a b : list A) : NoDup (a ++ b) -> NoDup b.
+Proof. induction a as [|x a IH]; simpl; [auto|]. intros H. inversion H; auto. Qed.
+
+(** two swaps in flight never share an index, and their indices are blocked *)
+Theorem no_overlap s0 st :
+  cb_reach s0 st ->
+  NoDup (pairs (cb_inflight st))
+  /\ forall i, In i (cb_inflight st) ->
+       nth i (cb_blocked st) false = true /\ nth (S i) (cb_blocked st) false = true.
+Proof.
+  intros H. apply cb_reach_inv in H. destruct H as [[_ Hd Hb _ _] _].
+  unfold pairs in *. rewrite flat_map_app in Hd. split.
+  - eapply NoDup_app_r. exact Hd.
+  - intros i Hi. split; apply Hb; apply in_flat_map; exists i;
+      (split; [apply in_or_app; right; assumption|simpl; auto]).
+Qed.
+
+(** pairwise form of [no_overlap] *)
+Corollary no_overlap_pairwise s0 st a b i j :
+  cb_reach s0 st -> a <> b ->
+  nth_error (cb_inflight st) a = Some i -> nth_error (cb_inflight st) b = Some j ->
+  i <> j /\ i <> S j /\ S i <> j.
+Proof.
+  intros H Hab Ha Hb. apply no_overlap in H. destruct H as [Hnd _].
+  assert (Hgen : forall l a b i j, NoDup (pairs l) -> a < b ->
+            nth_error l a = Some i -> nth_error l b = Some j -> i <> j /\ i <> S j /\ S i <> j).
+  { clear. induction l as [|x l IH]; intros a b i j Hnd Hab Ha Hb; [destruct a; discriminate|].
+    simpl in Hnd. inversion Hnd as [|? ? N1 Hnd1]; subst. inversion Hnd1 as [|? ? N2 Hnd2]; subst.
+    destruct b as [|b]; [lia|]. simpl in Hb. destruct a as [|a].
+    - injection Ha as ->. apply nth_error_In in Hb.
+      assert (In j (pairs l) /\ In (S j) (pairs l)) as [J1 J2].
+      { split; apply in_flat_map; exists j; simpl; auto. }
+      repeat split; intros E; subst; simpl in N1; tauto.
+    - simpl in Ha. apply (IH a b); auto; lia. }
+  destruct (Nat.lt_ge_cases a b).
+  - eapply Hgen; eauto.
+  - destruct (Hgen _ b a j i Hnd ltac:(lia) Hb Ha) as (H1 & H2 & H3). auto.
+Qed.
+
+(** every swap a worker performs exchanges an adjacent pair that is strictly
+    out of order *)
+Theorem cb_swap_valid s0 st i :
+  cb_reach s0 st -> In i (cb_inflight st) ->
+  S i < length (cb_seq st) /\ nth (S i) (cb_seq st) 0 < nth i (cb_seq st) 0.
+Proof.
+  intros H Hi. apply cb_reach_inv in H. destruct H as [[_ _ _ Ho _] _].
+  apply Ho. apply in_or_app. right. assumption.
+Qed.
+
+Lemma adjacent_sorted l :
+  (forall k, S k < length l -> nth k l 0 <= nth (S k) l 0) -> sorted l.
+Proof.
+  intros H a b [Hab Hb]. induction b as [|b IH]; [lia|].
+  destruct (Nat.eq_dec a b) as [->|]; [apply H; assumption|].
+  etransitivity; [apply IH; lia|apply H; assumption].
+Qed.
+
+(** partial correctness: when the task list is empty and nothing is in flight
+    (the condition under which the workers return) the sequence is sorted *)
+Theorem cb_done_sorted s0 st :
+  cb_reach s0 st -> cb_tasks st = [] -> cb_inflight st = [] ->
+  sorted (cb_seq st) /\ Permutation (cb_seq st) s0.
+Proof.
+  intros H Et Ei. apply cb_reach_inv in H. destruct H as [[_ _ Hb _ Hc] HP].
+  split; [|assumption]. rewrite Et, Ei in Hb. simpl in Hb.
+  apply adjacent_sorted. intros k Hk.
+  destruct (Nat.le_gt_cases (nth k (cb_seq st) 0) (nth (S k) (cb_seq st) 0)) as [|Hlt]; [assumption|].
+  destruct (Hc k Hk Hlt) as [E|E]; apply Hb in E; contradiction.
+Qed.
+
+(** the executable schedule runner only produces reachable states *)
+Lemma cb_run_reach s0 sched : forall st st',
+  cb_reach s0 st -> cb_run sched st = Some st' -> cb_reach s0 st'.
+Proof.
+  induction sched as [|[i|] r IH]; intros st st' H E; simpl in E.
+  - injection E as <-. assumption.
+  - destruct (existsb (Nat.eqb i) (cb_inflight st)) eqn:Ex; [|discriminate].
+    apply IH in E; [assumption|]. apply cbr_finish; [assumption|].
+    apply existsb_exists in Ex. destruct Ex as (x & Hx & Hix). apply Nat.eqb_eq in Hix.
+    subst. assumption.
+  - destruct (cb_take st) as [st1|] eqn:Et; [|discriminate].
+    apply IH in E; [assumption|]. eapply cbr_take; eassumption.
+Qed.
+
+Example cb_run_seq_ex :
+  fst (cb_run_seq 100 (cb_init [5;4;3;2;1;0]) []) = mkCb [0;1;2;3;4;5] (repeat false 6) [] [].
+Proof. vm_compute. reflexivity. Qed.
